@@ -521,6 +521,317 @@ def chk_duschinsky(ctx, case):
                  f"{Uo.tolist()} / {do.tolist()} on {case}", dict(chk="duschinsky", case=case))
 
 
+
+# ------------------------------------------------------------------------------------------ history / aliasing oracles
+
+def _train_stack(case, cfg):
+    """fresh arrays and fresh objects for the configuration `cfg` = (n_mean, threshold)"""
+    from strawberryfields.apps.train import cost, embed, param
+    A = np.array(case["A"], dtype=float)
+    F = np.array(case["F"], dtype=float)
+    emb = embed.Exp(len(A)) if case.get("exp") else embed.ExpFeatures(F)
+    data = np.array(case["data"], dtype=int)
+    hw = np.array(case["hw"], dtype=float)
+    h = lambda s_: float(np.dot(hw[:-1], s_) + hw[-1])
+    vg = param.VGBS(A, cfg[0], emb, cfg[1], data.copy())
+    return dict(A=A, F=F, emb=emb, data=data, vg=vg, kl=cost.KL(data, vg), st=cost.Stochastic(h, vg), h=h)
+
+
+def _train_call(stk, name, th, arg):
+    vg, kl, st = stk["vg"], stk["kl"], stk["st"]
+    if name == "A":
+        return vg.A(th)
+    if name == "W":
+        return vg.W(th)
+    if name == "mean_photons":
+        return vg.mean_photons_by_mode(th)
+    if name == "mean_clicks":
+        return vg.mean_clicks_by_mode(th)
+    if name == "n_mean":
+        return vg.n_mean(th)
+    if name == "prob_sample":
+        return vg.prob_sample(th, np.array(arg))
+    if name == "weights":
+        return stk["emb"](th)
+    if name == "jacobian":
+        return stk["emb"].jacobian(th)
+    if name == "kl_grad":
+        return kl.grad(th)
+    if name == "kl_eval":
+        return kl.evaluate(th)
+    if name == "st_grad":
+        return st.grad(th, arg)
+    if name == "st_eval":
+        return st.evaluate(th, arg)
+    if name == "h_rep":
+        return st.h_reparametrized(np.array(arg), th)
+    if name == "samples":
+        return vg.get_A_init_samples(arg)
+    raise KeyError(name)
+
+
+def chk_history_train(ctx, case):
+    """one VGBS / KL / Stochastic stack (and one adjacency array, one embedding, shared parameter arrays) used for a
+    whole script of calls; every answer must equal the answer of freshly built equal objects, every input must be left
+    as it was, and scribbling over a returned array must not change later answers"""
+    ctx.oracle_cases += 1
+    rp = dict(chk="history_train", case=case)
+    cfg = (case["n_mean"], case["threshold"])
+    shared = _train_stack(case, cfg)
+    A_obj, emb_obj = shared["A"], shared["emb"]
+    pool = [np.array(t, dtype=float) for t in case["thetas"]]           # shared parameter arrays
+    content = [list(t) for t in case["thetas"]]
+    for k, step in enumerate(case["steps"]):
+        name = step[0]
+        if name == "edit_theta":                                         # the same ndarray object, new content
+            i, j, v = step[1:]
+            pool[i][j] = v
+            content[i][j] = v
+            continue
+        if name == "rebuild":                                            # a second VGBS from the same A / embedding objects
+            from strawberryfields.apps.train import cost, param
+            cfg = (step[1], bool(step[2]))
+            shared["vg"] = param.VGBS(A_obj, cfg[0], emb_obj, cfg[1], shared["data"].copy())
+            shared["kl"] = cost.KL(shared["data"], shared["vg"])
+            shared["st"] = cost.Stochastic(shared["h"], shared["vg"])
+            continue
+        i, arg = step[1], (step[2] if len(step) > 2 else None)
+        got = _train_call(shared, name, pool[i], arg)
+        fresh = _train_stack(case, cfg)
+        want = _train_call(fresh, name, np.array(content[i], dtype=float), arg)
+        where = f"step {k} {step} (configuration n_mean={cfg[0]}, threshold={cfg[1]})"
+        if not T.close(np.asarray(got, dtype=complex), np.asarray(want, dtype=complex), 1e-11):
+            ctx.fail(f"history:train:{name}", f"{name} on reused objects gives {np.asarray(got).tolist()}, freshly built "
+                     f"objects give {np.asarray(want).tolist()} at {where} of {case}", rp)
+            return
+        # inputs untouched
+        if not (np.array_equal(A_obj, np.array(case["A"], dtype=float)) and np.array_equal(shared["F"], np.array(case["F"], dtype=float))
+                and np.array_equal(pool[i], np.array(content[i], dtype=float))
+                and np.array_equal(shared["data"], np.array(case["data"], dtype=int))
+                and np.array_equal(np.asarray(emb_obj.features), np.asarray(fresh["emb"].features))):
+            ctx.fail(f"history:train:input-modified:{name}", f"{name} modified one of its inputs (adjacency, features, "
+                     f"parameters, data) at {where} of {case}", rp)
+            return
+        if not (T.close(shared["vg"].A_init, fresh["vg"].A_init, 1e-12) and
+                np.array_equal(shared["vg"].A_init_samples, fresh["vg"].A_init_samples)
+                and T.close(shared["kl"].mean_n_data, fresh["kl"].mean_n_data, 1e-14)):
+            ctx.fail(f"history:train:state-drift:{name}", f"A_init / A_init_samples / mean_n_data changed by {where} of {case}", rp)
+            return
+        if isinstance(got, np.ndarray) and got.size and name != "samples":
+            try:
+                got[...] = 7.25                                          # scribble over the returned array
+            except ValueError:
+                pass
+    ctx.tally("history:train:steps", len(case["steps"]))
+
+
+def chk_history_graph(ctx, case):
+    """one networkx graph object queried repeatedly with different mean photon numbers / losses and edited in place in
+    between: every answer must equal the answer for a freshly built graph with the current edges"""
+    import networkx as nx
+    from strawberryfields.apps import similarity
+    ctx.oracle_cases += 1
+    rp = dict(chk="history_graph", case=case)
+    A = np.array(case["A"], dtype=float)
+    g = nx.from_numpy_array(A)
+    for k, step in enumerate(case["steps"]):
+        if step[0] == "toggle":
+            i, j = step[1:]
+            if g.has_edge(i, j):
+                g.remove_edge(i, j)
+            else:
+                g.add_edge(i, j)
+            continue
+        cur = nx.to_numpy_array(g, nodelist=range(len(A)))
+        fresh = nx.from_numpy_array(cur)
+        if step[0] == "orbit":
+            _, orbit, n_mean, loss = step
+            got = call(similarity.prob_orbit_exact, g, list(orbit), n_mean, loss)
+            want = call(similarity.prob_orbit_exact, fresh, list(orbit), n_mean, loss)
+        else:
+            _, n, mx, n_mean, loss = step
+            got = call(similarity.prob_event_exact, g, n, mx, n_mean, loss)
+            want = call(similarity.prob_event_exact, fresh, n, mx, n_mean, loss)
+        same = got[0] == want[0] and (got[0] != "ok" or abs(float(got[1]) - float(want[1])) <= 1e-12)
+        if not same:
+            ctx.fail("history:graph:" + step[0], f"{step} on the reused graph object gives {got}, a fresh graph with the same "
+                     f"edges {sorted(fresh.edges)} gives {want} at step {k} of {case}", rp)
+            return
+        if not np.array_equal(nx.to_numpy_array(g, nodelist=range(len(A))), cur) or list(g.nodes) != list(range(len(A))):
+            ctx.fail("history:graph:input-modified", f"{step} modified the graph at step {k} of {case}", rp)
+            return
+
+
+def chk_qchem_inputs(ctx, case):
+    """gbs_params / energies / duschinsky / marginals / TimeEvolution leave their array arguments alone and answer the
+    same when called twice with the same objects"""
+    import strawberryfields as sf
+    from strawberryfields.apps.qchem import dynamics, utils, vibronic
+    ctx.oracle_cases += 1
+    rp = dict(chk="qchem_inputs", case=case)
+    w, wp = np.array(case["w"], dtype=float), np.array(case["wp"], dtype=float)
+    Ud, delta = np.array(case["Ud"], dtype=float), np.array(case["delta"], dtype=float)
+    snap = [x.copy() for x in (w, wp, Ud, delta)]
+    r1 = vibronic.gbs_params(w, wp, Ud, delta, case["T"])
+    r2 = vibronic.gbs_params(w, wp, Ud, delta, case["T"])
+    if not all(np.array_equal(a, b) for a, b in zip((w, wp, Ud, delta), snap)):
+        ctx.fail("history:gbs_params:input-modified", f"gbs_params modified an argument on {case}", rp)
+    if not all(T.close(a, b, 1e-13) for a, b in zip(r1, r2)):
+        ctx.fail("history:gbs_params:not-repeatable", f"two calls of gbs_params differ on {case}", rp)
+    # energies: own formula, list and single-sample branch, arguments untouched
+    n = len(w)
+    samples = case["samples"]
+    want = [float(np.dot(s_[:n], wp) - np.dot(s_[n:], w)) for s_ in samples]
+    keep = json.loads(json.dumps(samples))
+    st, got = call(vibronic.energies, samples, w, wp)
+    st1, got1 = call(vibronic.energies, samples[0], w, wp)
+    if st != "ok" or not T.close(got, want, 1e-12) or st1 != "ok" or not T.close(got1, want[0], 1e-12) or samples != keep:
+        ctx.fail("vibronic:energies", f"energies {st} {got} / single {st1} {got1} vs m.wp - n.w = {want} on {case}", rp)
+    # TimeEvolution built twice from the same frequency array, the array edited in place in between
+    t = case["t"]
+    ths = []
+    for rnd in range(2):
+        prog = sf.Program(n)
+        with prog.context as q:
+            dynamics.TimeEvolution(w, t) | q
+        ths.append([float(c.op.p[0]) for c in prog.circuit])
+        if not T.close(ths[-1], T.theta_ref(w, t), 1e-12):
+            ctx.fail("history:TimeEvolution:stale-angles", f"round {rnd}: angles {ths[-1]} vs -2 pi c w t = "
+                     f"{T.theta_ref(w, t).tolist()} (frequency array edited in place between the rounds) on {case}", rp)
+            break
+        w[0] += 17.0                                  # same array object, new content
+    w[0] -= 34.0
+
+
+def _capture_programs(fn, *a, **k):
+    """run `fn` and record every (program, engine backend, options, shots) handed to LocalEngine.run"""
+    import strawberryfields as sf
+    from strawberryfields.engine import LocalEngine
+    rec = []
+    orig = LocalEngine.run
+
+    def run(self, program, *args, **kwargs):
+        rec.append(dict(ops=[[c.op.__class__.__name__, [r.ind for r in c.reg], [p for p in c.op.p]] for c in program.circuit],
+                        n=program.num_subsystems, backend=self.backend_name, options=dict(self.backend_options),
+                        shots=kwargs.get("shots")))
+        return orig(self, program, *args, **kwargs)
+    LocalEngine.run = run
+    try:
+        return call(fn, *a, **k), rec
+    finally:
+        LocalEngine.run = orig
+
+
+def _fmt_ops(ops, ident):
+    """[[class, parameter index (via `ident`), modes]] of a captured program"""
+    return [[name, ident(name, pars, regs), regs] for name, regs, pars in ops]
+
+
+def sample_program_case(ctx, B, kind, case):
+    """correspondence + oracle for one call of vibronic.sample / dynamics.sample_*: the program handed to the engine vs
+    the model's command list, parameters by value, engine options, shape of what is returned"""
+    from strawberryfields.apps.qchem import dynamics, vibronic
+    n = case["n"]
+    loss = case["loss"]
+    np.random.seed(case["seed"])
+    Ul = np.array(case["Ul"], dtype=float)
+    w = np.array(case["w"], dtype=float)
+    th = T.theta_ref(w, case["t"])
+    par = {}
+    if kind == "vibsample":
+        t, r, alpha = (np.array(case[k], dtype=float) for k in ("tt", "r", "alpha"))
+        U2 = np.array(case["U2"], dtype=float)
+        (st, out), rec = _capture_programs(vibronic.sample, t, Ul, r, U2, alpha, case["shots"], loss)
+        anyT = bool(np.any(t != 0))
+        par = dict(S2gate=[[x, 0.0] for x in t], Sgate=[[x, 0.0] for x in r], Dgate=[[abs(x), float(np.angle(x))] for x in alpha],
+                   I1=Ul, I2=U2)
+        width = 2 * n
+    elif kind == "dynfock":
+        (st, out), rec = _capture_programs(dynamics.sample_fock, list(case["fock"]), case["t"], Ul, w, case["shots"], case["cutoff"], loss)
+        anyT = True
+        par = dict(Fock=[[x] for x in case["fock"]], Rgate=[[x] for x in th], I1=Ul.T, I2=Ul)
+        width = n
+    elif kind == "dyntmsv":
+        (st, out), rec = _capture_programs(dynamics.sample_tmsv, [list(x) for x in case["r2"]], case["t"], Ul, w, case["shots"], loss)
+        anyT = True
+        par = dict(S2gate=[list(x) for x in case["r2"]], Rgate=[[x] for x in th], I1=Ul.T, I2=Ul)
+        width = 2 * n
+    else:
+        (st, out), rec = _capture_programs(dynamics.sample_coherent, [list(x) for x in case["a2"]], case["t"], Ul, w, case["shots"], loss)
+        anyT = True
+        par = dict(Dgate=[list(x) for x in case["a2"]], Rgate=[[x] for x in th], I1=Ul.T, I2=Ul)
+        width = n
+    ctx.oracle_cases += 1
+    rp = dict(chk="sample_program", case=dict(case, kind=kind))
+    if st != "ok":
+        ctx.fail(f"qchem:{kind}:raises", f"{kind} raises {st}: {out} on {case}", rp)
+        return
+    arr = np.array(out)
+    if arr.shape != (case["shots"], width) or (arr < 0).any():
+        ctx.fail(f"qchem:{kind}:shape", f"{kind} returns shape {arr.shape}, expected {(case['shots'], width)} on {case}", rp)
+    if kind == "vibsample" and not anyT and arr.shape[1] == 2 * n and arr[:, n:].any():
+        ctx.fail(f"qchem:{kind}:padding", f"non-zero counts in the padded columns on {case}", rp)
+    if loss == 1.0 and arr.any():
+        ctx.fail(f"qchem:{kind}:all-loss", f"photons detected although every photon is lost on {case}", rp)
+    if not rec:
+        ctx.fail(f"qchem:{kind}:no-engine-run", f"no program reached LocalEngine.run on {case}", rp)
+        return
+    first = rec[0]
+    # parameters by value (oracle): every gate carries the documented parameter of ITS mode
+    bad = None
+    for name, regs, pars in first["ops"]:
+        pv = [np.asarray(x, dtype=complex) if not np.isscalar(x) else complex(x) for x in pars]
+        if name == "Interferometer":
+            continue
+        if name == "LossChannel":
+            if abs(pv[0] - (1 - loss)) > 1e-14:
+                bad = (name, regs, pars)
+        elif name in par:
+            i = regs[0]
+            want = par[name][i] if i < len(par[name]) else None
+            if want is None or not T.close([complex(x) for x in pv[:len(want)]], want, 1e-12):
+                bad = (name, regs, [complex(x) for x in pv], want)
+    if bad:
+        ctx.fail(f"qchem:{kind}:parameter", f"program of {kind}: {bad[0]} on modes {bad[1]} carries {bad[2:]} on {case}", rp)
+    lossy = sorted(regs[0] for name, regs, _ in first["ops"] if name == "LossChannel")
+    if lossy != (list(range(first["n"])) if loss else []):
+        ctx.fail(f"qchem:{kind}:loss-channels", f"loss channels on modes {lossy} of {first['n']} (loss = {loss}) on {case}", rp)
+    meas = [regs for name, regs, _ in first["ops"] if name == "MeasureFock"]
+    if meas != [list(range(first["n"]))] or first["ops"][-1][0] != "MeasureFock":
+        ctx.fail(f"qchem:{kind}:measurement", f"measurements {meas} in a program on {first['n']} modes on {case}", rp)
+    exp_backend = "fock" if kind == "dynfock" else "gaussian"
+    runs_ok = (len(rec) == (case["shots"] if kind == "dynfock" else 1) and all(r["backend"] == exp_backend for r in rec)
+               and (kind == "dynfock" or first["shots"] == case["shots"])
+               and (kind != "dynfock" or first["options"].get("cutoff_dim") == case["cutoff"]))
+    if not runs_ok:
+        ctx.fail(f"qchem:{kind}:engine", f"engine runs {[(r['backend'], r['shots'], r['options']) for r in rec]} on {case}", rp)
+
+    seen = [0]
+
+    def ident(name, pars, regs):
+        if name == "Interferometer":
+            m = np.asarray(pars[0])
+            seen[0] += 1
+            is1 = m.shape == par["I1"].shape and np.array_equal(m, par["I1"])
+            is2 = m.shape == par["I2"].shape and np.array_equal(m, par["I2"])
+            return seen[0] if (is1 and is2 and seen[0] <= 2) else 1 if is1 else 2 if is2 else 0
+        if name in ("LossChannel", "MeasureFock"):
+            return 0
+        return regs[0]
+    impl_ops = _fmt_ops(first["ops"], ident)
+    B.add(f"{kind} program", dict(op="train.sampleops", kind=kind, n=n, anyT=anyT, loss=bool(loss)),
+          lambda model, impl_ops=impl_ops, nm=first["n"], w_=arr.shape[1] if arr.ndim == 2 else -1:
+          None if (model["ops"] == impl_ops and model["modes"] == nm and model["modes"] + model["pad"] == w_) else
+          f"program {impl_ops} on {nm} modes, {w_} columns vs model {model}", dict(case, kind=kind))
+
+
+def chk_sample_program(ctx, case):
+    class _NoModel:
+        def add(self, *a, **k):
+            pass
+    sample_program_case(ctx, _NoModel(), case["kind"], case)
+
+
 def guarded(name, chk):
     """an exception escaping from the code under test on a valid input is a failing input, not a harness crash"""
     def run_chk(ctx, case):
@@ -541,7 +852,8 @@ def guarded(name, chk):
 CHECKS = {k: guarded(k, v) for k, v in {
     "kl_fd": chk_kl_fd, "stoch_fd": chk_stoch_fd, "state": chk_state, "orbit": chk_orbit, "time": chk_time,
     "vibronic": chk_vibronic, "sample_shape": chk_sample_shape, "marginals": chk_marginals,
-    "duschinsky": chk_duschinsky}.items()}
+    "duschinsky": chk_duschinsky, "history_train": chk_history_train, "history_graph": chk_history_graph,
+    "qchem_inputs": chk_qchem_inputs, "sample_program": chk_sample_program}.items()}
 
 
 # ------------------------------------------------------------------------------------------ generators
@@ -1052,7 +1364,7 @@ def oracle_qchem(ctx):
         delta = [0.0] * n if rng.random() < 0.15 else [dy(rng, -12, 12, 8) for _ in range(n)]
         N = n + rng.choice([0, 0, 1])
         case = dict(w=w, wp=wp, Ud=Ud.tolist(), delta=delta, T=rng.choice([0, 0, 1.0, 300.0, float(rng.randint(200, 1500))]),
-                    N=N, regs=sorted(rng.sample(range(N), n)))
+                    N=N, regs=rng.sample(range(N), n) if it % 2 else sorted(rng.sample(range(N), n)))
         CHECKS["vibronic"](ctx, case)
         ctx.count("vibronic:" + kind, ("vibronic", case), n >= 2 and any(delta), sample=case)
     for it in range(ctx.n(6, 40)):
@@ -1084,6 +1396,241 @@ def oracle_qchem(ctx):
         ctx.count("duschinsky", ("dusch", case), M >= 2)
 
 
+
+# ------------------------------------------------------------------------------------------ deepening: new ties
+
+def corr_deep(ctx, B, sf):
+    from strawberryfields.apps.qchem import utils, vibronic
+    from strawberryfields.apps.train import param
+    rng = ctx.rng
+    nprng = ctx.nprng(11)
+    # --- the model hafnian vs prob_photon_sample:  P(n) = Haf(A_n)^2 / n! * sqrt(det(1 - A^2))
+    for _ in range(ctx.n(40, 400)):
+        m = rng.randint(1, 4)
+        A = rand_sym(rng, m)
+        sv = np.linalg.svd(A, compute_uv=False).max()
+        A = A / (2 ** math.ceil(math.log2(sv * rng.choice([1.5, 2.0, 4.0]))))
+        tot = rng.choice([0, 2, 2, 4, 4, 6]) if m <= 3 else rng.choice([2, 4])
+        pats = list(T.patterns_exact(m, tot))
+        pat = list(rng.choice(pats))
+        hb = rng.choice([2, 2, 1])
+        with Hbar(sf, hb):
+            pimpl = float(param.prob_photon_sample(A, np.array(pat)))
+        norm = math.sqrt(np.linalg.det(np.eye(m) - A @ A))
+        fact = math.prod(math.factorial(c) for c in pat)
+        idx = [k for k, c in enumerate(pat) for _ in range(c)]
+        B.add("model hafnian vs prob_photon_sample", dict(op="train.haf", A=T.frmat(A), pattern=pat),
+              lambda model, pimpl=pimpl, norm=norm, fact=fact, idx=idx: None if (
+                  model["idx"] == idx and abs(T.unfr(model["weight"]) / fact * norm - pimpl) <= 1e-10) else
+              f"prob_photon_sample {pimpl} vs Haf^2/n! sqrt(det) = {T.unfr(model['weight']) / fact * norm}",
+              dict(A=A.tolist(), pattern=pat, hbar=hb))
+        ctx.count(f"haf:photons={tot}", ("haf", A.tolist(), pat), m >= 2 and tot >= 2, sample=dict(A=A.tolist(), pattern=pat))
+    # --- energies (exact: dyadic frequencies)
+    for _ in range(ctx.n(40, 300)):
+        n = rng.randint(1, 4)
+        w = [rng.randint(100, 4000) + rng.choice([0, 0.5, 0.25]) for _ in range(n)]
+        wp = [rng.randint(100, 4000) + rng.choice([0, 0.5]) for _ in range(n)]
+        smp = [rng.randint(0, 3) for _ in range(2 * n)]
+        st, e1 = call(vibronic.energies, list(smp), np.array(w), np.array(wp))
+        st2, e2 = call(vibronic.energies, [list(smp), list(smp[::-1])], np.array(w), np.array(wp))
+        B.add("vibronic.energies", dict(op="train.energy", s=smp, wp=T.frvec(wp), w=T.frvec(w)),
+              lambda model, st=st, e1=e1, st2=st2, e2=e2: None if (st == st2 == "ok" and float(e1) == T.unfr(model) and float(e2[0]) == T.unfr(model))
+              else f"energies {st} {e1} / {st2} {e2} vs model {T.unfr(model)}", dict(s=smp, w=w, wp=wp))
+        ctx.count("energies", ("en", smp, w, wp), n >= 2)
+    # --- duschinsky: U, d, delta with the square roots / l^-1 as atoms
+    for _ in range(ctx.n(25, 200)):
+        na, M = rng.randint(1, 3), rng.randint(1, 3)
+        a = 3 * na
+        Li, Lf = nprng.normal(size=(a, M)).round(3), nprng.normal(size=(a, M)).round(3)
+        ri, rf = nprng.normal(size=a).round(3), nprng.normal(size=a).round(3)
+        wf = np.array([float(rng.randint(100, 4000)) for _ in range(M)])
+        mass = np.array([x for _ in range(na) for x in [float(rng.choice([1.0078, 12.0, 15.9949]))] * 3])
+        U, delta = utils.duschinsky(Li, Lf, ri, rf, wf, mass)
+        _, dref = T.duschinsky_ref(Li, Lf, ri, rf, wf, mass)
+        linv = np.sqrt(2 * math.pi * T.C_LIGHT * (wf * 100.0) / (T.H_PLANCK / (2 * math.pi))) * math.sqrt(T.M_U) * 1e-10
+        req = dict(op="train.dusch", a=a, M=M, Lf=T.frmat(Lf), Li=T.frmat(Li), sm=T.frvec(np.sqrt(mass)), ri=T.frvec(ri),
+                   rf=T.frvec(rf), linv=T.frvec(linv))
+        B.add("utils.duschinsky", req,
+              lambda model, U=U, delta=delta, M=M: None if (T.close(U, T.unmat(model["U"]).reshape(M, M), 1e-12) and
+                                                            T.close(delta, vec(model["delta"]), 1e-8)) else
+              f"U / delta {np.asarray(U).tolist()} / {np.asarray(delta).tolist()} vs model {T.unmat(model['U']).tolist()} / {vec(model['delta']).tolist()}",
+              dict(Li=Li.tolist(), Lf=Lf.tolist(), wf=wf.tolist()))
+        ctx.count("duschinsky-corr", ("dc", Li.tolist(), Lf.tolist()), M >= 2)
+    # --- marginals: argument checks, which reduced state / which element is asked for, where the answers are put
+    from thewalrus import quantum as twq
+    for _ in range(ctx.n(40, 300)):
+        n = rng.randint(1, 4)
+        kind = rng.choice(["ok"] * 6 + ["notSquare", "lenMismatch", "nMax"])
+        mu = np.arange(1, 2 * n + 1, dtype=float) * 0.5
+        V = np.arange((2 * n) ** 2, dtype=float).reshape(2 * n, 2 * n) + 100.0
+        nmax = rng.randint(1, 5)
+        if kind == "notSquare":
+            V = V[:, :-1] if n > 0 else V
+        elif kind == "lenMismatch":
+            mu = mu[:-1]
+        elif kind == "nMax":
+            nmax = rng.choice([0, -1])
+        hb = rng.choice([2.0, 1.0, 0.5])
+        calls = []
+
+        def stub(mui, vi, i, j, hbar=2, calls=calls, **kw):
+            calls.append((np.array(mui), np.array(vi), list(i), list(j), hbar))
+            return 1000.0 + len(calls)
+        orig = twq.density_matrix_element
+        twq.density_matrix_element = stub
+        try:
+            st, pm = call(utils.marginals, mu, V, nmax, hb)
+        finally:
+            twq.density_matrix_element = orig
+        req = dict(op="train.marginals", lenMu=len(mu), rows=V.shape[0], cols=V.shape[1], nMax=nmax)
+
+        def cmp(model, st=st, pm=pm, calls=calls, mu=mu, V=V, hb=hb):
+            if "err" in model:
+                return None if st == "ValueError" else f"model raises {model['err']}, impl {st}: {pm}"
+            if st != "ok":
+                return f"impl raises {st}: {pm}, model {model}"
+            ok = model["ok"]
+            nm, nx_ = ok["shape"]
+            if np.asarray(pm).shape != (nm, nx_) or len(calls) != len(ok["calls"]):
+                return f"shape {np.asarray(pm).shape} / {len(calls)} calls vs model {ok['shape']} / {len(ok['calls'])}"
+            for k, ((mode, i), (mui, vi, ii, jj, hbar)) in enumerate(zip(ok["calls"], calls)):
+                ix = ok["idx"][mode]
+                if not (np.array_equal(mui, mu[ix]) and np.array_equal(vi, V[np.ix_(ix, ix)]) and ii == [i] and jj == [i]
+                        and hbar == hb and pm[mode, i] == 1001.0 + k):
+                    return f"call {k}: asked element {ii},{jj} of reduced state {mui.tolist()} (hbar {hbar}), model ({mode},{i}) rows {ix}"
+            return None
+        B.add("utils.marginals bookkeeping", req, cmp, dict(n=n, kind=kind, nmax=nmax, hbar=hb))
+        ctx.count("marginals-corr:" + kind, ("mc", n, kind, nmax, hb), n >= 2)
+    # --- the sampling programs
+    combos = [("vibsample", ls, tk) for tk in ("all-zero", "none-zero", "mixed") for ls in (0.0, 0.25, 1.0)] + \
+        [(k, ls, None) for k in ("dynfock", "dyntmsv", "dyncoherent") for ls in (0.0, 0.25, 1.0)]
+    for it in range(ctx.n(36, 180)):
+        kind, loss_, tk = combos[it % len(combos)]           # every option combination on every run
+        n = rng.randint(1, 3) if kind != "dyntmsv" else rng.randint(1, 2)
+        if tk == "mixed":
+            n = rng.randint(2, 3)
+        Ul = T.rand_orthogonal(nprng, n)
+        case = dict(n=n, Ul=Ul.tolist(), w=[float(rng.randint(100, 4000)) for _ in range(n)], t=rng.choice([0.0, 7.5, 30.0]),
+                    loss=loss_, shots=rng.randint(1, 3), seed=rng.randint(0, 10 ** 6))
+        if kind == "vibsample":
+            tt = [0.0] * n if tk == "all-zero" else [0.15 + 0.05 * k for k in range(n)]
+            if tk == "mixed":
+                tt[rng.randrange(n)] = 0.0
+            case.update(tt=tt, r=[dy(rng, -2, 2, 8) + 0.01 * (k + 1) for k in range(n)],
+                        alpha=[dy(rng, -3, 3, 8) + 0.01 * (k + 1) for k in range(n)], U2=T.rand_orthogonal(nprng, n).tolist())
+            if n == 1:
+                case["U2"] = [[-1.0]]
+        elif kind == "dynfock":
+            fk = [rng.randint(0, 2) for _ in range(n)]
+            case.update(fock=fk, cutoff=sum(fk) + 1 + rng.randint(0, 1))
+        elif kind == "dyntmsv":
+            case.update(r2=[[0.1 + 0.05 * k, dy(rng, -4, 4, 4)] for k in range(n)])
+        else:
+            case.update(a2=[[0.2 + 0.1 * k, dy(rng, -4, 4, 4)] for k in range(n)])
+        try:
+            sample_program_case(ctx, B, kind, case)
+        except core.Infra:
+            raise
+        ctx.count(f"sample-program:{kind}:loss={case['loss']}", ("sp", kind, case), n >= 2, sample=dict(case, kind=kind))
+
+
+def oracle_history(ctx):
+    from strawberryfields.apps.train import embed
+    rng = ctx.rng
+    nprng = ctx.nprng(13)
+    names_pnr = ["A", "W", "mean_photons", "mean_clicks", "n_mean", "prob_sample", "weights", "jacobian", "kl_grad", "kl_eval",
+                 "st_grad", "st_eval", "h_rep", "samples"]
+    done = tries = 0
+    while done < ctx.n(10, 100) and tries < 400:
+        tries += 1
+        base = gen_train_case(rng, embed, mmax=3, pnr_small=True)
+        d = len(base["theta"])
+        thetas = [rand_theta(rng, d, 0.0).tolist() for _ in range(3)]
+        ok = all(admissible(dict(base, theta=t)) is not None for t in thetas)
+        vg0 = admissible(dict(base, theta=[0.0] * d))
+        if not ok or vg0 is None:
+            continue
+        m = len(base["A"])
+        # rebuild may switch the detection mode: only 0/1 patterns of positive probability are valid data in both modes
+        data = [s_ for s_ in positive_patterns(np.asarray(vg0.A_init), m, 40, rng, tot=4) if max(s_) <= 1][:rng.randint(2, 5)]
+        if len(data) < 2:
+            continue
+        def one(name, i):
+            if name in ("prob_sample", "h_rep"):
+                return [name, i, rng.choice(data)]
+            if name in ("st_grad", "st_eval", "samples"):
+                return [name, i, rng.randint(1, len(data))]
+            return [name, i]
+        steps = []
+        dependents = ["n_mean", "prob_sample", "kl_eval", "kl_grad", "st_eval", "mean_photons", "A"]
+        for _ in range(rng.randint(2, 3)):
+            pat = rng.choice(["again-after-scribble", "same-array-new-content", "interleave", "rebuild"])
+            f = rng.choice(names_pnr)
+            i = rng.randrange(3)
+            if pat == "again-after-scribble":          # the returned array is overwritten by the check, then asked again
+                steps += [one(f, i), one(f, i), one(rng.choice(dependents), i)]
+            elif pat == "same-array-new-content":      # identity-keyed caches
+                steps += [one(f, i), ["edit_theta", i, rng.randrange(d), dy(rng, 0, 8, 16)], one(f, i), one(rng.choice(dependents), i)]
+            elif pat == "interleave":
+                j = (i + 1 + rng.randrange(2)) % 3
+                steps += [one(f, i), one(f, j), one(f, i)]
+            else:                                        # a second model from the same matrix / embedding objects
+                steps += [one(f, i), ["rebuild", float(rng.choice([0.2, 0.3, 0.5])), bool(rng.random() < 0.5)], one(f, i),
+                          one("n_mean", i)]
+        case = dict(base, thetas=thetas, data=data, hw=[dy(rng, -8, 8, 4) for _ in range(m + 1)], steps=steps)
+        case.pop("theta")
+        # edited parameters may leave the domain after a rebuild with another mean: keep only scripts whose every
+        # (configuration, parameter) pair is admissible
+        cfgs = [(case["n_mean"], case["threshold"])] + [(s_[1], s_[2]) for s_ in steps if s_[0] == "rebuild"]
+        pts = [list(t) for t in thetas]
+        for s_ in steps:
+            if s_[0] == "edit_theta":
+                t2 = list(pts[s_[1]])
+                t2[s_[2]] = s_[3]
+                pts.append(t2)
+                pts[s_[1]] = t2
+        if any(admissible(dict(base, n_mean=c[0], threshold=c[1], theta=t)) is None for c in cfgs for t in pts):
+            continue
+        done += 1
+        CHECKS["history_train"](ctx, case)
+        ctx.count("history:train:" + ("threshold" if base["threshold"] else "pnr"), ("ht", case), True, sample=case)
+    for _ in range(ctx.n(6, 60)):
+        m = rng.randint(3, 4)
+        A = rand_sym(rng, m, "graph")
+        steps = []
+        for _ in range(rng.randint(3, 6)):
+            u = rng.random()
+            if u < 0.3:
+                i, j = rng.sample(range(m), 2)
+                steps.append(["toggle", i, j])
+            elif u < 0.65:
+                ph = rng.randint(1, 4)
+                parts, left = [], ph
+                while left > 0:
+                    k = rng.randint(1, left)
+                    parts.append(k)
+                    left -= k
+                steps.append(["orbit", sorted(parts, reverse=True), rng.choice([0.5, 1.0, 2.0]), rng.choice([0.0, 0.25])])
+            else:
+                steps.append(["event", rng.randint(0, 4), rng.randint(1, 2), rng.choice([0.5, 1.0, 2.0]), rng.choice([0.0, 0.25])])
+        # the same query before and after an edit is the interesting script: repeat an earlier query at the end
+        qs = [s_ for s_ in steps if s_[0] != "toggle"]
+        if qs:
+            i, j = rng.sample(range(m), 2)
+            steps += [["toggle", i, j], list(qs[0])[:-2] + [qs[0][-2], qs[0][-1]]]
+        case = dict(A=A.tolist(), steps=steps)
+        CHECKS["history_graph"](ctx, case)
+        ctx.count("history:graph", ("hg", case), True, sample=case)
+    for _ in range(ctx.n(8, 60)):
+        n = rng.randint(1, 3)
+        case = dict(w=[float(rng.randint(100, 4000)) for _ in range(n)], wp=[float(rng.randint(100, 4000)) for _ in range(n)],
+                    Ud=T.rand_orthogonal(nprng, n).tolist(), delta=[dy(rng, -8, 8, 8) for _ in range(n)],
+                    T=rng.choice([0, 300.0]), t=float(rng.randint(1, 50)),
+                    samples=[[rng.randint(0, 3) for _ in range(2 * n)] for _ in range(rng.randint(1, 3))])
+        CHECKS["qchem_inputs"](ctx, case)
+        ctx.count("history:qchem-inputs", ("qi", case), n >= 2)
+
+
 def self_test():
     """the Duschinsky reference state used by the oracle reproduces the textbook 0-0 Franck-Condon factor"""
     om, omp, d = 1.0, 2.3, 0.7
@@ -1110,7 +1657,7 @@ def run(ctx, sf):
     B = Batch(ctx)
     for name, section in (("embed", lambda: corr_embed(ctx, B)), ("param", lambda: corr_param(ctx, B, sf)),
                           ("cost", lambda: corr_cost(ctx, B, sf)), ("qchem", lambda: corr_qchem(ctx, B, sf)),
-                          ("similarity", lambda: corr_similarity(ctx, B))):
+                          ("similarity", lambda: corr_similarity(ctx, B)), ("deep", lambda: corr_deep(ctx, B, sf))):
         try:
             section()
         except core.Infra:
@@ -1127,6 +1674,7 @@ def run(ctx, sf):
     oracle_train(ctx)
     oracle_similarity(ctx)
     oracle_qchem(ctx)
+    oracle_history(ctx)
     sf.hbar = 2
 
 
